@@ -184,6 +184,21 @@ func TestC17Identifiers(t *testing.T) {
 				h.App.Step()
 				h.releaseAcks(rapid.IntRange(1, 6).Draw(rt, "n"))
 			},
+			// the Persistence fails the Delete which an acknowledgement asks
+			// for: the transfer stays in flight and keeps its slot
+			"ackDeleteFails": func(rt *rapid.T) {
+				c := h.Current()
+				if c == nil || len(c.Owed()) == 0 {
+					rt.Skip("nothing owed")
+				}
+				h.Store.FailNext('D')
+				h.Act("the next Delete fails")
+				h.App.Step()
+				h.releaseAcks(1)
+				h.Store.ClearFaults()
+				h.appStep("reconnect after the failed Delete")
+				h.label("delete-failed-on-acknowledgement")
+			},
 			"break": func(rt *rapid.T) {
 				c := h.Current()
 				if c == nil {
